@@ -115,15 +115,23 @@ def run_mc(sdir, spec, tier):
 
 def run_gen(sdir, spec, tier, seed):
     """Run a scenario-emitting TLC configuration; the emitted JSON values (one per line) go to a file."""
-    cfg = spec["cfg"][tier] if isinstance(spec["cfg"], dict) else spec["cfg"]
+    cfgs = spec["cfg"][tier] if isinstance(spec["cfg"], dict) else spec["cfg"]
+    if not isinstance(cfgs, list):
+        cfgs = [cfgs]
     extra = list(spec.get("extra", []))
     if spec.get("simulate"):
         sim = spec["simulate"][tier]
         extra += ["-simulate", "num=%d" % sim["num"], "-depth", str(sim["depth"]), "-seed", str(seed)]
-    r = vf.tlc(sdir, spec["module"], cfg, workers=1, timeout=spec.get("timeout", 1800), heap="4g", extra=extra, tag="-gen")
-    vals = vf.tlc_printed(r["out"])
-    if not vals:
-        raise vf.NoVerdict("scenario generation %s/%s produced nothing:\n%s" % (spec["module"], cfg, r["out"][-2000:]))
+    vals = []
+    r = None
+    for ci, cfg in enumerate(cfgs):
+        r = vf.tlc(sdir, spec["module"], cfg, workers=1, timeout=spec.get("timeout", 1800), heap="4g", extra=extra, tag="-gen%d" % ci)
+        if not r.get("ok"):
+            raise vf.NoVerdict("scenario generation %s/%s failed:\n%s" % (spec["module"], cfg, r["out"][-2000:]))
+        got = vf.tlc_printed(r["out"])
+        if not got:
+            raise vf.NoVerdict("scenario generation %s/%s produced nothing:\n%s" % (spec["module"], cfg, r["out"][-2000:]))
+        vals += got
     path = os.path.join(sdir, "scenarios-%s.ndjson" % spec["module"])
     seen = set()
     with open(path, "w") as fh:
@@ -427,11 +435,17 @@ REGISTRY = {
                 gen=dict(module="Gen_Units", cfg={"quick": "Gen_Units.quick.cfg", "thorough": "Gen_Units.thorough.cfg"}),
                 rule="scenario = unit sequence over C02's 13-unit alphabet (exhaustive from TLC up to the tier's bound, random beyond), "
                      "all casings of begin/commit/rollback drawn per scenario; distinct by content; non-trivial = contains a committing unit"),
-    "C04": dict(mode="c04", mc=[MC_SESSION], trace_module="Trace_Stream", trace_cfg="Trace_Stream.cfg", props=["C04"],
-                nontrivial=has_tx, assumptions=STREAM_ASSUME,
+    "C04": dict(parts=[dict(mode="c04", trace_module="Trace_Stream", trace_cfg="Trace_Stream.cfg", props=["C04"]),
+                       dict(mode="c04g", trace_module="Trace_Stream", trace_cfg="Trace_Stream.cfg", props=["C04"])],
+                mc=[MC_SESSION], nontrivial=has_tx, assumptions=STREAM_ASSUME,
+                gen=dict(module="Gen_Session", cfg={"quick": "Gen_Session.quick.cfg",
+                                                    "thorough": ["Gen_Session.thorough.cfg", "Gen_Session.thorough2.cfg"]}),
                 rule="scenario = history x (fault kind x packet/transaction index) as failed attempt(s) on ONE Streamer object, then a clean "
                      "attempt; fault kinds: socket close/reset, short packet, out-of-sequence packet, ERR, EOF, cancel, handler error, mapper "
-                     "error, mapper column-count mismatch, RowsQuery/IntVar/Rand event, invalid event; both pacings; distinct by content"),
+                     "error, mapper column-count mismatch, RowsQuery/IntVar/Rand event, invalid event; both pacings; distinct by content. "
+                     "Part 2: EVERY session of the TLC model MC_Session within the bound (Gen_Session: logs of <= 2 units x one fault action at "
+                     "every point + clean attempt in quick; <= 3 units, and <= 2 units with two failed attempts, in thorough) replayed on the "
+                     "real Streamer with hook tracing; each attempt's hook trace is validated packet by packet against Streamer!Step"),
     "C05": dict(parts=[dict(mode="c05", race=True, trace_module="Trace_Stream", trace_cfg="Trace_Stream.cfg", props=["C05"])],
                 mc=[MC_CONN, MC_CONN_SPEC], nontrivial=has_tx, assumptions=STREAM_ASSUME + [
                     "the data-race clause is decided by the Go race detector on the replayed schedules (the Go memory model is not modelled in TLA+)"],
